@@ -110,6 +110,11 @@ def finish(prop: str, level: str, tier: str, seed: int, results: List[Result], t
     """Write evidence, print findings/violations, return exit code."""
     findings = load_findings()
     os.makedirs(EVIDENCE_DIR, exist_ok=True)
+    rdir = os.path.join(REPLAY_DIR, prop)
+    if os.path.isdir(rdir):
+        for fn in os.listdir(rdir):
+            if fn.endswith(".json"):
+                os.unlink(os.path.join(rdir, fn))
     n_viol = 0
     known_lines = []
     viol_lines = []
